@@ -82,7 +82,7 @@ SPEC = {
                 Value::Str(bs) => if utf8_ok(bs@) { r matches Ok(s) && s@ == utf8_chars(bs@) } else { r matches Err(e) && err_at(e, expr.1) },
                 _ => incorrect_type(r, expr.1, "string"@, sv.v),
             },
-        }), // [C16:a_property_name_must_be_a_string]
+        }), // [C12_C16:a_property_name_is_the_value_of_its_expression_and_must_be_a_string]
         r matches Err(e) ==> located(e), // [C17:coercion_errors_are_located]
 """,
 }
